@@ -8,3 +8,7 @@ def run(ctx, rep):
     res.rule_no_leaks(mod, rep, entry.entry_points(mod))
     res.rule_failed_constructor_cleanup(mod, rep)
     threads.rule_T1_create_join(mod, rep, ctx.config)
+    from ..rules import more2
+    more2.rule_workinit_failure(mod, rep)
+    from ..rules import more3
+    more3.rule_create_only_first(mod, rep)
